@@ -4263,10 +4263,32 @@ class Padded(Subconstruct):
             raise SizeofError("cannot calculate size, key not found in context", path=path)
 
     def _emitparse(self, code):
-        return f"({self.subcon._compileparse(code)}, io.read(({self.length})-({self.subcon.sizeof()}) ))[0]"
+        code.append(f"""
+            def parse_padded(io, length, func):
+                position1 = io.tell()
+                obj = func()
+                position2 = io.tell()
+                pad = length - (position2 - position1)
+                if pad < 0:
+                    raise PaddingError("subcon parsed more bytes than was allowed by length")
+                io.read(pad)
+                return obj
+        """)
+        return f"parse_padded(io, {self.length}, lambda: {self.subcon._compileparse(code)})"
 
     def _emitbuild(self, code):
-        return f"({self.subcon._compilebuild(code)}, io.write({repr(self.pattern)}*(({self.length})-({self.subcon.sizeof()})) ))[0]"
+        code.append(f"""
+            def build_padded(io, length, pattern, func):
+                position1 = io.tell()
+                ret = func()
+                position2 = io.tell()
+                pad = length - (position2 - position1)
+                if pad < 0:
+                    raise PaddingError("subcon build more bytes than was allowed by length")
+                io.write(pattern * pad)
+                return ret
+        """)
+        return f"build_padded(io, {self.length}, {repr(self.pattern)}, lambda: {self.subcon._compilebuild(code)})"
 
     def _emitfulltype(self, ksy, bitwise):
         return dict(size=self.length, type=self.subcon._compileprimitivetype(ksy, bitwise))
